@@ -89,6 +89,9 @@ def run_shard(prop, tier, seed, shard, only=None):
             ctx.cur = {"workload": wl.name, "index": i}
             ctx.cur_desc = None
             rng = ctx.rng_for(wl.name, i)
+            pe = 1 if total <= 2000 else (4 if total <= 20000 else 32)
+            if i % pe == 0:
+                core.poison_small_blocks(i // pe)      # uninitialised reads become visible (core.poison_small_blocks)
             try:
                 with core.watchdog(wl.budget, f"{wl.name}[{i}]"):
                     wl.fn(ctx, rng, i)
